@@ -483,11 +483,11 @@ def real_stage(sites, stage):
 
     target = build_class(sites)
     if stage in ("calc", "all"):
-        CalculateAttributePaths.process(target)
+        CalculateAttributePaths().process(target)  # the container holds an instance; `process` is a classmethod today
     if stage in ("effective", "all"):
         UpdateAttributesEffectiveChoice().process(target)
     if stage in ("merge", "all"):
-        MergeAttributes.process(target)
+        MergeAttributes().process(target)
     return [export_attr(a) for a in target.attrs]
 
 
